@@ -21,7 +21,7 @@ import (
 
 func init() {
 	vf.Register(&vf.CheckDef{ID: "C20", Level: "model_checking", Run: run,
-		Workers: map[string]vf.WorkerFunc{"hist": histWorker, "real": realWorker, "split": splitWorker}})
+		Workers: map[string]vf.WorkerFunc{"hist": histWorker, "real": realWorker, "split": splitWorker, "race": raceWorker}})
 }
 
 // ---------------------------------------------------------------- formats: independent single-document parsers
@@ -33,6 +33,15 @@ type fmtSpec struct {
 	// parse returns the ids of the records in the file, the number of documents
 	// (headers / bracket pairs) found, and an error text for anything else.
 	parse func(text string, keys []string) (ids []string, docs int, bad string)
+}
+
+// idsOf projects parsed records (values joined by |, id first) to their ids.
+func idsOf(recs []string) []string {
+	out := make([]string, len(recs))
+	for i, r := range recs {
+		out[i] = strings.SplitN(r, "|", 2)[0]
+	}
+	return out
 }
 
 func fieldOf(keys []string, vals []string, k string) (string, bool) {
@@ -71,8 +80,7 @@ func parseSeparated(sep string) func(string, []string) ([]string, int, string) {
 			if len(f) != len(keys) {
 				return nil, docs, fmt.Sprintf("data line %q has %d fields, header has %d", ln, len(f), len(keys))
 			}
-			id, _ := fieldOf(keys, f, "id")
-			ids = append(ids, id)
+			ids = append(ids, strings.Join(f, "|"))
 		}
 		return ids, docs, ""
 	}
@@ -104,10 +112,24 @@ func parseJSON(text string, keys []string) ([]string, int, string) {
 			if !ok {
 				return ids, docs, "array element is not an object"
 			}
-			ids = append(ids, fmt.Sprint(m["id"]))
+			ids = append(ids, jsonTuple(m, keys))
 		}
 	}
 	return ids, docs, ""
+}
+
+func jsonTuple(m map[string]any, keys []string) string {
+	if keys == nil {
+		return fmt.Sprint(m["id"])
+	}
+	var vals []string
+	for _, k := range keys {
+		vals = append(vals, fmt.Sprint(m[k]))
+	}
+	if len(m) != len(keys) {
+		vals = append(vals, fmt.Sprintf("(%d keys)", len(m)))
+	}
+	return strings.Join(vals, "|")
 }
 
 func parseJSONL(text string, keys []string) ([]string, int, string) {
@@ -120,7 +142,7 @@ func parseJSONL(text string, keys []string) ([]string, int, string) {
 		if err := json.Unmarshal([]byte(ln), &m); err != nil {
 			return ids, 1, fmt.Sprintf("line %q is not a JSON object", ln)
 		}
-		ids = append(ids, fmt.Sprint(m["id"]))
+		ids = append(ids, jsonTuple(m, keys))
 	}
 	return ids, 1, ""
 }
@@ -131,22 +153,23 @@ func parseDKVP(text string, keys []string) ([]string, int, string) {
 	}
 	var ids []string
 	for _, ln := range strings.Split(strings.TrimSuffix(text, "\n"), "\n") {
-		id := ""
+		var vals []string
 		n := 0
 		for _, kv := range strings.Split(ln, ",") {
 			p := strings.SplitN(kv, "=", 2)
 			if len(p) != 2 {
 				return ids, 1, fmt.Sprintf("line %q is not key=value", ln)
 			}
-			n++
-			if p[0] == "id" {
-				id = p[1]
+			if n < len(keys) && p[0] != keys[n] {
+				return ids, 1, fmt.Sprintf("line %q: field %d is %q, expected %q", ln, n+1, p[0], keys[n])
 			}
+			n++
+			vals = append(vals, p[1])
 		}
 		if n != len(keys) {
 			return ids, 1, fmt.Sprintf("line %q has %d fields, expected %d", ln, n, len(keys))
 		}
-		ids = append(ids, id)
+		ids = append(ids, strings.Join(vals, "|"))
 	}
 	return ids, 1, ""
 }
@@ -173,8 +196,7 @@ func parsePPRINT(text string, keys []string) ([]string, int, string) {
 		if len(f) != len(keys) {
 			return ids, docs, fmt.Sprintf("row %q has %d columns, header has %d", ln, len(f), len(keys))
 		}
-		id, _ := fieldOf(keys, f, "id")
-		ids = append(ids, id)
+		ids = append(ids, strings.Join(f, "|"))
 	}
 	return ids, docs, ""
 }
@@ -198,8 +220,10 @@ func parseXTAB(text string, keys []string) ([]string, int, string) {
 			if len(f) != 2 || f[0] != keys[i%len(keys)] {
 				return ids, docs, fmt.Sprintf("stanza line %q is not %q and a value", ln, keys[i%len(keys)])
 			}
-			if f[0] == "id" {
+			if i%len(keys) == 0 {
 				ids = append(ids, f[1])
+			} else {
+				ids[len(ids)-1] += "|" + f[1]
 			}
 		}
 	}
@@ -234,8 +258,7 @@ func parseMarkdown(text string, keys []string) ([]string, int, string) {
 		if len(f) != len(keys) {
 			return ids, docs, fmt.Sprintf("row %q has %d cells", ln, len(f))
 		}
-		id, _ := fieldOf(keys, f, "id")
-		ids = append(ids, id)
+		ids = append(ids, strings.Join(f, "|"))
 	}
 	return ids, docs, ""
 }
@@ -290,7 +313,48 @@ func routers(quick bool) []router {
 		},
 			file: func(d, t, e string) string { return filepath.Join(d, t+"."+e) }},
 	}
+	// (a) the record is changed AFTER it was routed (later statements of the same expression, the next verb of the
+	// chain): the target must hold the record as it was when the redirect statement ran
+	rs = append(rs,
+		router{name: "put-tee>-then-mutate", args: func(d, e string) []string {
+			return []string{"put", `tee > ` + q(d+"/") + `.$t.` + q("."+e) + `, $*; $v = 0; $t = "Z"; $w = 1; unset $id`, "then", "put", "$x = 2"}
+		}, file: func(d, t, e string) string { return filepath.Join(d, t+"."+e) }},
+		router{name: "put-emit>-then-mutate", args: func(d, e string) []string {
+			return []string{"put", `emit > ` + q(d+"/") + `.$t.` + q("."+e) + `, mapexcept($*, "nosuch"); $v = 0; $t = "Z"; $w = 1; unset $id`, "then", "put", "$x = 2"}
+		}, file: func(d, t, e string) string { return filepath.Join(d, t+"."+e) }},
+		// (b) the target name comes from other expression forms than a dot-concatenation: a string literal that
+		// interpolates a regex capture, a local, a function call
+		router{name: "put-tee>-capture", args: func(d, e string) []string {
+			return []string{"put", "-q", `if ($t =~ "^(.*)$") { tee > ` + q(d+`/\1.`+e) + `, $* }`}
+		}, file: func(d, t, e string) string { return filepath.Join(d, t+"."+e) }},
+		router{name: "put-print>-capture", lines: true, args: func(d, e string) []string {
+			return []string{"put", "-q", `if ($t =~ "^(.*)$") { print > ` + q(d+`/\1.txt`) + `, $id }`}
+		}, file: func(d, t, e string) string { return filepath.Join(d, t+".txt") }},
+		router{name: "put-tee>-local", args: func(d, e string) []string {
+			return []string{"put", "-q", `var f = ` + q(d+"/") + `.$t.` + q("."+e) + `; tee > f, $*`}
+		}, file: func(d, t, e string) string { return filepath.Join(d, t+"."+e) }},
+	)
 	if !quick {
+		rs = append(rs,
+			router{name: "put-emit>-capture", args: func(d, e string) []string {
+				return []string{"put", "-q", `if ($t =~ "^(.*)$") { emit > ` + q(d+`/\1.`+e) + `, mapexcept($*, "nosuch") }`}
+			}, file: func(d, t, e string) string { return filepath.Join(d, t+"."+e) }},
+			router{name: "put-printn>-capture", lines: true, args: func(d, e string) []string {
+				return []string{"put", "-q", `if ($t =~ "^(.*)$") { printn > ` + q(d+`/\1.txt`) + `, $id."\n" }`}
+			}, file: func(d, t, e string) string { return filepath.Join(d, t+".txt") }},
+			router{name: "put-dump>-capture", lines: true, args: func(d, e string) []string {
+				return []string{"put", "-q", `if ($t =~ "^(.*)$") { dump > ` + q(d+`/\1.txt`) + `, $id }`}
+			}, file: func(d, t, e string) string { return filepath.Join(d, t+".txt") }},
+			router{name: "put-tee>-funcall", args: func(d, e string) []string {
+				return []string{"put", "-q", `tee > sub(` + q(d+"/X."+e) + `, "X", $t), $*`}
+			}, file: func(d, t, e string) string { return filepath.Join(d, t+"."+e) }},
+			router{name: "put-tee>-oosvar", args: func(d, e string) []string {
+				return []string{"put", "-q", `begin{@pfx = ` + q(d+"/") + `} tee > @pfx.$t.` + q("."+e) + `, $*`}
+			}, file: func(d, t, e string) string { return filepath.Join(d, t+"."+e) }},
+			router{name: "put-emit>>-then-mutate", appnd: true, args: func(d, e string) []string {
+				return []string{"put", `emit >> ` + q(d+"/") + `.$t.` + q("."+e) + `, mapexcept($*, "nosuch"); $v = 0; unset $id`}
+			}, file: func(d, t, e string) string { return filepath.Join(d, t+"."+e) }},
+		)
 		rs = append(rs,
 			router{name: "put-emitf>", args: func(d, e string) []string {
 				return []string{"put", "-q", `@id=$id; @t=$t; @v=$v; emitf > ` + q(d+"/") + `.$t.` + q("."+e) + `, @id, @t, @v`}
@@ -353,7 +417,12 @@ func runHistory(w *vf.Worker, capLabel string, capacity int, r router, f fmtSpec
 	for i, t := range hist {
 		id := fmt.Sprint(i + 1)
 		fmt.Fprintf(&in, "id=%s,t=%s,v=%d\n", id, targetNames[t], (i+1)*(i+1))
-		routed[t] = append(routed[t], id)
+		if r.lines {
+			routed[t] = append(routed[t], id)
+		} else {
+			// the whole record as it was when it was routed
+			routed[t] = append(routed[t], fmt.Sprintf("%s|%s|%d", id, targetNames[t], (i+1)*(i+1)))
+		}
 	}
 	pre := ""
 	if r.appnd {
@@ -612,6 +681,85 @@ func realWorker(w *vf.Worker) {
 	}
 }
 
+// ---------------------------------------------------------------- free-running -race pass over fan-out
+//
+// Every target has a writer goroutine of its own: state that writers (or a writer and the main stream's writer) share
+// at package scope is invisible to every deterministic run above and corrupts cells only under real parallelism. The
+// same routers run uninstrumented under the race detector, for every output format, with 4 targets written at the same
+// time; a report is a violation keyed by the racing site.
+func raceWorker(w *vf.Worker) {
+	if os.Getenv("VERIF_RACE_LOG") == "" {
+		w.Broken("race worker without VERIF_RACE_LOG")
+		return
+	}
+	dir, err := os.MkdirTemp("/dev/shm", "verif-c20race-")
+	if err != nil {
+		w.Broken("tempdir: %v", err)
+		return
+	}
+	defer os.RemoveAll(dir)
+	n := 2400
+	if !w.Quick() {
+		n = 12000
+	}
+	var in strings.Builder
+	for i := 1; i <= n; i++ {
+		fmt.Fprintf(&in, "id=%d,t=%c,v=%d,s=text %d\n", i, 'A'+i%4, i*i, i%13)
+	}
+	input := in.String()
+	fmts := []string{"csv", "tsv", "json", "jsonl", "dkvp", "nidx", "xtab", "pprint", "markdown", "csvlite", "dkvpx", "yaml", "dcf", "recutils"}
+	type rc struct {
+		name string
+		args func(d, f string) []string
+	}
+	q := func(s string) string { return `"` + s + `"` }
+	chains := []rc{
+		{"split -g", func(d, f string) []string { return []string{"split", "-g", "t", "--prefix", d + "/s"} }},
+		{"tee >", func(d, f string) []string { return []string{"put", "-q", `tee > ` + q(d+"/") + `.$t.".out", $*`} }},
+		{"emit >", func(d, f string) []string {
+			return []string{"put", "-q", `emit > ` + q(d+"/") + `.$t.".out", mapexcept($*, "nosuch")`}
+		}},
+		{"tee verb + main stream", func(d, f string) []string { return []string{"tee", d + "/tee.out", "then", "put", "$w = 1"} }},
+		{"tee > + main stream mutating", func(d, f string) []string {
+			return []string{"put", `tee > ` + q(d+"/") + `.$t.".out", $*; $v = 0; unset $s`, "then", "put", "$x = 2"}
+		}},
+		{"print > and dump >", func(d, f string) []string {
+			return []string{"put", "-q", `print > ` + q(d+"/") + `.$t.".txt", $id; dump > ` + q(d+"/d") + `.$t.".txt", $*`}
+		}},
+	}
+	var idx uint64
+	for _, f := range fmts {
+		for _, ch := range chains {
+			idx++
+			if !w.Mine(idx) {
+				continue
+			}
+			w.Begin(idx)
+			f, ch := f, ch
+			w.Label(func() string { return "race " + ch.name + " " + f })
+			sub := filepath.Join(dir, fmt.Sprint(idx))
+			os.MkdirAll(sub, 0755)
+			vf.TakeRaceLogs()
+			args := append([]string{"-o", f, "--records-per-batch", "20"}, ch.args(sub, f)...)
+			var res vf.MlrResult
+			for rep := 0; rep < 2; rep++ {
+				res = vf.RunMlr(args, vf.MlrOpts{Stdin: &input})
+			}
+			os.RemoveAll(sub)
+			w.Eval(2)
+			w.Count("race_pass_chains", 1)
+			if !res.OK() {
+				w.Inexhaustive(fmt.Sprintf("race pass chain `%s` with -o %s exits non-zero (%s): it exercises nothing", ch.name, f, trunc(res.Stderr+res.Err, 200)))
+			}
+			for _, rs := range vf.RaceSites(vf.TakeRaceLogs()) {
+				w.Violation("data-race:"+rs.Site, fmt.Sprintf("the race detector reports unsynchronised access between goroutines at %s (seen while running `mlr %s` with %d records routed to 4 targets, or a chain shortly before it): target files can hold cells of other records", rs.Site, trunc(strings.Join(args, " "), 300), n),
+					map[string]any{"argv": args, "records": n, "report": rs.Report})
+			}
+			w.Nontrivial(1)
+		}
+	}
+}
+
 func run(c *vf.Ctx) {
 	c.Rule = "a history is a sequence of (target, record) writes; ALL histories up to the length bound over the target set are enumerated up to target renaming (canonical form: first occurrences in order), each through every routing statement/verb x output format, in builds whose LRU capacity constant is 2 and 3; structured families (cyclic, revisit after a 256-gap, sawtooth, two-pass) at the real capacity 256. evaluations = invocations; states = distinct histories; distinct_nontrivial = invocations whose history revisits a target after its eviction"
 	c.Assume("the reduced-capacity builds differ from the real one only in the literal of lruFileHandlerCapacity (tools/vinstr -const); the families at 256 bind the reduced model to the real constant")
@@ -641,6 +789,14 @@ func run(c *vf.Ctx) {
 	}
 	c.RunPool(vf.PoolSpec{Worker: "real", Shards: 32, StallSecs: 900})
 	c.RunPool(vf.PoolSpec{Worker: "split", Shards: 32, StallSecs: 900})
+	if rb := os.Getenv("VERIF_BIN_RACE"); rb != "" {
+		rdir, _ := os.MkdirTemp("/dev/shm", "verif-c20racelog-")
+		c.RunPool(vf.PoolSpec{Worker: "race", Bin: rb, Shards: 16, StallSecs: 900, Env: vf.RaceEnv(rdir)})
+		os.RemoveAll(rdir)
+	} else {
+		c.Broken("no -race binary (VERIF_BIN_RACE)")
+	}
+	c.Assume("the -race pass over fan-out (6 routing chains x 14 output formats, 4 targets written concurrently) is a dynamic observation of one free-running execution per chain, not an enumeration: it guards the writers-share-nothing assumption that every deterministic run above rests on")
 	c.TracesValidated = c.Evaluations
 	c.Extra["bounds"] = map[string]any{"capacity2": map[string]int{"targets": T2, "maxlen": L2}, "capacity3": map[string]int{"targets": T3, "maxlen": L3}}
 }
